@@ -200,6 +200,7 @@ pub fn run_case(sc: &Scenario, mode: &Mode) -> CaseOut {
             let mut w5 = pre.clone();
             let mut p5 = plan.clone();
             p5.fail = 0;
+            p5.abort = None; // the main run finished before its abort point; the twin must not be cut short
             let r5 = safe_eval(&mut w5, &p5, &plan.sched, &plain);
             out.evals += 1;
             if r5.engine_error.is_none() {
@@ -491,4 +492,42 @@ pub fn run_case(sc: &Scenario, mode: &Mode) -> CaseOut {
         }
     }
     out
+}
+
+/// human readable trace of a scenario (development / triage aid)
+pub fn trace_case(sc: &Scenario) -> String {
+    let mut s = String::new();
+    let opts = Opts { monitors: true, probes: false };
+    let mut w = World::new(sc);
+    s.push_str(&format!("config {:?}\n", sc.cfg));
+    for (i, step) in sc.steps.iter().enumerate() {
+        for e in step.edits.iter() {
+            w.apply_edit(e);
+        }
+        s.push_str(&format!("== evaluation {} after edits {:?}\n", i, step.edits));
+        for l in describe_graph(&w) {
+            s.push_str(&format!("   {}\n", l));
+        }
+        let p = &step.plan;
+        s.push_str(&format!("   plan: fail={:b} fail_mode={} abort={:?} max_running={} ack_mode={} choices={:?} decl={}\n", p.fail, p.fail_mode, p.abort, p.sched.max_running, p.sched.ack_mode, p.sched.choices, !p.sched.decl.is_empty()));
+        s.push_str(&format!("   history in: {:?}\n", w.history));
+        s.push_str(&format!("   disk: {:?}\n", w.disk));
+        let pre = w.clone();
+        let mut res = safe_eval(&mut w, p, &p.sched, &opts);
+        let _ = posthoc(&pre, &w, &mut res);
+        s.push_str(&format!("   events: {:?}\n", res.events));
+        s.push_str(&format!("   dispositions: {:?}\n", res.disp));
+        s.push_str(&format!("   states: {:?}\n", res.final_states));
+        for t in res.transitions.iter() {
+            s.push_str(&format!("      {} {} -> {}\n", t.0, t.1, t.2));
+        }
+        for v in res.violations.iter() {
+            s.push_str(&format!("   !! {} :: {}\n", v.sig(), v.detail));
+        }
+        match (&res.new_history, res.engine_error.is_none()) {
+            (Some(h), true) => w.history = h.clone(),
+            _ => break,
+        }
+    }
+    s
 }
